@@ -89,6 +89,13 @@ def run(ctx):
         hit = [e for e in gridok if e["f"]["suites"] in ("scsv", "both") and e["f"]["reneg"] == rv]
         if not hit or not all(255 in e["pub"]["CipherSuites"] and e["pub"]["SecureRenegotiationSupported"] for e in hit):
             raise vlib.Machinery("C31 vacuity: no parsed grid hello with TLS_EMPTY_RENEGOTIATION_INFO_SCSV and renegotiation_info %s" % rv)
+    # present-but-empty vs absent must be visible in the recorded nil flags (quic_transport_parameters is the member whose
+    # encoder tells nil from empty)
+    qe = [e for e in gridok if e["f"]["quic"] == "empty"]
+    qa = [e for e in gridok if e["f"]["quic"] == "absent"]
+    if not qe or not qa or not all(e["nils"]["privA"]["quicTransportParameters"] is False for e in qe) \
+            or not all(e["nils"]["privA"]["quicTransportParameters"] is True for e in qa):
+        raise vlib.Machinery("C31 vacuity: present-but-empty quic_transport_parameters is not distinguished from absent in the parsed hello")
     for sv in ("fallback", "grease", "dup"):
         if not any(e["f"]["suites"] == sv for e in gridok):
             raise vlib.Machinery("C31 vacuity: no grid hello with cipher_suites shape %s" % sv)
@@ -111,9 +118,19 @@ def run(ctx):
     c4 = copy.deepcopy(gsh); c4["q2"]["CipherSuite"] += 1
     gl = next(e for e in evs if e["ev"] == "List" and e["n"] == 2)
     c5 = copy.deepcopy(gl); c5["out"] = c5["out"][:1]
-    crej = validate(ctx, [good, c1, c2, c3, gsh, c4, gl, c5], "c31_canary")
-    got = {i: set(f) for i, f, _ in crej}
-    if not (set(got) == {2, 3, 4, 6, 8} and "public-private-public-lossy" in got[2] and "private-public-private-lossy" in got[3]
+    bad_evs = {id(e) for items in rejected.values() for e, _, _ in items}
+    gq = next((e for e in gridok if e["f"]["quic"] == "empty" and id(e) not in bad_evs), None)
+    pres = []
+    if gq is not None:      # (no accepted base exists when the code under test loses the presence for every such hello)
+        c6 = copy.deepcopy(gq); c6["nils"]["privB"]["quicTransportParameters"] = True     # rebuilt private form lost "present but empty"
+        c7 = copy.deepcopy(gq); c7["nils"]["pub3"]["QuicTransportParameters"] = True
+        pres = [c6, c7]
+    crej = validate(ctx, [good, c1, c2, c3, gsh, c4, gl, c5] + pres, "c31_canary")
+    got = {}
+    for i, f, _ in crej:
+        got.setdefault(i, set()).update(f)
+    if not (set(got) - {9, 10} == {2, 3, 4, 6, 8}
+            and (not pres or ("private-public-private-loses-presence" in got.get(9, ()) and "reparse-after-clearing-raw-loses-presence" in got.get(10, ()))) and "public-private-public-lossy" in got[2] and "private-public-private-lossy" in got[3]
             and "unmarshal-marshal-differs" in got[4] and "reparse-after-clearing-raw-differs" in got[6] and "list-conversion-lossy" in got[8]):
         raise vlib.Machinery("C31 binding canary failed: %r" % (crej,))
 
